@@ -18,6 +18,9 @@ def globals_snapshot():
             'modules': sorted(sys.modules.keys())}
 
 
+NESTED = []
+
+
 def main():
     data = json.load(sys.stdin)
     res = []
@@ -61,6 +64,7 @@ def main():
             n_main = len(MAIN_REPORT.feedback) + len(MAIN_REPORT.ignored_feedback)
             escaped = None
             ret = None
+            NESTED.clear()
             if st.get('tracer'):
                 sb.tracer_style = st['tracer']
             t0 = time.time()
@@ -71,7 +75,16 @@ def main():
                     kw['inputs'] = list(st['inputs'])
                 if st.get('nested'):
                     # an instructor helper placed in the student namespace that itself calls into the sandbox
-                    sb.data['instructor_helper'] = lambda: S.call(st['nested'])
+                    def instructor_helper(_st=st):
+                        # the inner call is an execution like any other: what it borrowed is back when IT returns
+                        b = globals_snapshot()
+                        depth = (len(sb._current_patches), len(sb._current_stdout))
+                        r = S.call(_st['nested'])
+                        a = globals_snapshot()
+                        NESTED.append(a['stdout'] == b['stdout'] and a['sleep'] == b['sleep'] and
+                                      (len(sb._current_patches), len(sb._current_stdout)) == depth)
+                        return r
+                    sb.data['instructor_helper'] = instructor_helper
                 if st['entry'] == 'next_section':
                     from pedal.source.sections import next_section
                     next_section()
@@ -107,6 +120,7 @@ def main():
                 'modules_added': [m for m in after['modules'] if m not in before['modules']],
                 'modules_removed': [m for m in before['modules'] if m not in after['modules']],
                 'patch_depth': len(sb._current_patches), 'stdout_depth': len(sb._current_stdout),
+                'nested_restored': list(NESTED),
                 'raw_output': sb.raw_output[-200:], 'wall': round(dt, 3),
                 'stray_on_main_report': 0 if R is MAIN_REPORT else len(MAIN_REPORT.feedback) + len(MAIN_REPORT.ignored_feedback) - n_main,
             })
